@@ -259,7 +259,7 @@ Fixpoint edges_scan (directed : bool) (g : mg) (by_rows : bool) (fixed : nat) (k
       | None => Panic
       | Some cell =>
           rmap (fun tl => match cell with
-                          | Some w => (if by_rows then (c, r, w) else (r, c, w)) :: tl
+                          | Some w => (r, c, w) :: tl   (* (source, target, weight), also when walking a column's rows *)
                           | None => tl end)
                (edges_scan directed g by_rows fixed rest)
       end
